@@ -39,14 +39,17 @@ pub const fn mulsign(x: P32E2, y: P32E2) -> P32E2 {
 mod kernel {
     use super::*;
     // TODO: |n| > 111
-    pub const fn pow2i(mut n: i32) -> P32E2 {
+    pub const fn pow2i(n: i32) -> P32E2 {
         let sign = n.is_negative();
-        if sign {
-            n = -n;
-        }
+        let n = n.unsigned_abs();
         let k = n >> 2;
-        let ex: u32 = ((n & 0x3) as u32) << (27 - k);
-        let ui = (0x7FFF_FFFF ^ (0x3FFF_FFFF >> k)) | ex;
+        // beyond 2^111 the regime pushes the exponent bits out of the word
+        let ex: u32 = if k <= 27 {
+            (n & 0x3) << (27 - k)
+        } else {
+            crate::u32_zero_shr(n & 0x3, k - 27)
+        };
+        let ui = (0x7FFF_FFFF ^ crate::u32_zero_shr(0x3FFF_FFFF, k)) | ex;
 
         if sign {
             P32E2::from_bits((ui << 1).wrapping_neg() >> 1)
